@@ -1,0 +1,40 @@
+// Copyright 2020-2025 Buf Technologies, Inc.
+//
+// Licensed under the Apache License, Version 2.0 (the "License");
+// you may not use this file except in compliance with the License.
+// You may obtain a copy of the License at
+//
+//      http://www.apache.org/licenses/LICENSE-2.0
+//
+// Unless required by applicable law or agreed to in writing, software
+// distributed under the License is distributed on an "AS IS" BASIS,
+// WITHOUT WARRANTIES OR CONDITIONS OF ANY KIND, either express or implied.
+// See the License for the specific language governing permissions and
+// limitations under the License.
+
+//go:build verif
+
+package storageos
+
+import "sync/atomic"
+
+var verifAtomicCloseHook atomic.Pointer[func(stage, tempPath, finalPath string) error]
+
+// SetVerifAtomicCloseHook installs a function called by the atomic writer's Close at stage
+// "closed-temp" (temporary file closed, not yet renamed) and "renamed" (verification builds
+// only). A non-nil return value is returned from Close as is, without rename or cleanup, which
+// leaves the files as a process killed at that point would. Pass nil to remove the hook.
+func SetVerifAtomicCloseHook(f func(stage, tempPath, finalPath string) error) {
+	if f == nil {
+		verifAtomicCloseHook.Store(nil)
+		return
+	}
+	verifAtomicCloseHook.Store(&f)
+}
+
+func verifAtomicClose(stage, tempPath, finalPath string) error {
+	if f := verifAtomicCloseHook.Load(); f != nil {
+		return (*f)(stage, tempPath, finalPath)
+	}
+	return nil
+}
